@@ -277,7 +277,8 @@ def run(tier):
         qsubs = [Sub(A6, 3, 1, per_line=259), Sub(A6, 3, 2, per_line=4), Sub(A6, 2, 3, per_line=1)]
         batches = [('core', core), ('sizes', None), ('sequences', None), ('locale', qsubs), ('n3', n3), ('wide', wide), ('long4', long4), ('n4', n4)]
     assert_disjoint(subs)
-    sizes = [f'count f C {n}' for n in counts] + [f'countz f C {n}' for n in countsz] + [f'len f C {l}' for l in lens] + ['all256 f C', 'fold256 f C']
+    taglens = [1, 2, 125, 126, 127, 128, 129, 200, 255, 256, 1000, 65536]
+    sizes = [f'count f C {n}' for n in counts] + [f'countz f C {n}' for n in countsz] + [f'len f C {l}' for l in lens] + ['all256 f C', 'fold256 f C'] + [f'longtag f C {l}' for l in taglens]
     enum_maxlen = max(s.maxlen for s in subs)
     enum_maxn = max(s.n for s in subs)
 
@@ -328,6 +329,12 @@ def run(tier):
             one = None
             if '..(' not in lst:
                 one = ' '.join(['one'] + mode_loc + [lst])
+            if case.startswith('longtag'):
+                # the query tags are part of the case, not of the list: replay the (small) case line itself
+                tl = re.search(r'tag=[0-9a-f]+\(len(\d+)\)', what)
+                tl = int(tl.group(1)) if tl else int(case.split()[3])
+                chk.violation(f"{cls}:{variant}/{path}:query_tag_{'longer_than_126' if tl > 126 else 'up_to_126'}_chars", f'{what} on list {lst} ({f.get("nfail")} failing checks in "{case}")', dict(rp, case=case))
+                return False
             chk.violation(f'{cls}:{variant}/{path}:{preds(lst)}', f'{what} on list {lst} ({f.get("nfail")} failing checks in sub-space "{case}")', dict(rp, case=one or case))
             return False
         # worker died (ASan / signal) or watchdog
@@ -345,7 +352,7 @@ def run(tier):
         return False
 
     # heaviest size cases first so that round-robin sharding spreads them
-    order = sorted(sizes, key=lambda c: -(int(c.split()[3]) if len(c.split()) > 3 and c.startswith('count') else 0))
+    order = sorted(sizes, key=lambda c: -(int(c.split()[3]) if len(c.split()) > 3 and c.startswith('count') else (2000 if c.startswith('longtag') and int(c.split()[3]) > 60000 else 0)))
     fold = {}
     big_sizes = 0
 
@@ -438,11 +445,11 @@ def run(tier):
         'exhaustive': bool(complete and incomplete_lines == 0),
         'rule': 'cases = comment lists, enumerated completely per sub-space inside the C executor (all lists of exactly n entries over all byte strings of length <= L over a small alphabet containing a, A, =, NUL, 0xE9, i; see subspaces) plus hand-listed size extremes; '
                 'every list is built in the structure directly with explicit lengths (and through vorbis_comment_add / vorbis_comment_add_tag when NUL-free), written by vorbis_analysis_headerout and vorbis_commentheader_out, read by vorbis_synthesis_headerin and compared with the list; '
-                'every tag of {a,A,aa,a=,(empty),i,I,0xE9,0xC9,TITLE} x every index 0..count+1 is queried on the written and on the read structure; evaluations = lists put through this oracle (all locales); '
+                'every tag of {a,A,aa,a=,(empty),i,I,0xE9,0xC9,TITLE} x every index 0..count+1 is queried on the written and on the read structure; long tags: for each tag length in long_tag_lengths every ordered triple of entries around the tag (exact, other case, last character changed, one longer/shorter, 126/127-character prefix) is queried with the tag and each relative; evaluations = lists put through this oracle (all locales); '
                 'distinct_nontrivial = number of distinct comment lists with >= 1 entry for which every construction variant round-tripped through both header paths and every query agreed '
                 '(sub-spaces are disjoint by construction: a sub-space skips the lists that lie entirely inside another one; size-extreme lists are added only when they have an entry longer than, or more entries than, any enumerated list)',
         'subspaces': per_sub,
-        'size_cases': {'counts': counts, 'counts_with_embedded_nul': countsz, 'lengths': lens, 'other': ['all256', 'fold256 (256 entries X"=v" x all 255 one-byte tags)']},
+        'size_cases': {'counts': counts, 'counts_with_embedded_nul': countsz, 'lengths': lens, 'other': ['all256', 'fold256 (256 entries X"=v" x all 255 one-byte tags)'], 'long_tag_lengths': taglens},
         'totals': dict(tot, max_entry_length_round_tripped=maxlen_rt),
         'locales': locs,
         'call_sequences': dict(seq_stats, families='EDIT: decode N entries from a stream written by this library or by a FOREIGN vendor (hand-packed header: AcmeCodec..., empty, 300 bytes, NUL/0xff bytes), then 0..K vorbis_comment_add/_add_tag onto the decoder-filled structure, write, decode, compare incl. vendor == the vendor of this library; REUSE: fill N>0, vorbis_comment_clear, add M>=0 without vorbis_comment_init, write, decode, compare'),
